@@ -387,7 +387,8 @@ def check_no_dropping(r, rule, qualnames, what):
                         hits += 1
                         rep.ob(rule, q, False, what, where_of(r.P, s.func, e.node), expected="every element of the argument takes part", found=f"{show(c, 90)} leaves elements out",
                                key=f"drops elements .{f[2]}()", lint=True)
-                if head(f) == "attr" and f[2] == "astype" and c[2] and head(strip(c[2][0])) == "attr" and strip(c[2][0])[2] == "dtype":
+                if head(f) == "attr" and f[2] == "astype" and c[2] and head(strip(c[2][0])) == "attr" and strip(c[2][0])[2] == "dtype" \
+                        and not any(x == strip_all(strip(c[2][0])[1]) for x in walk(strip_all(f[1]))):      # (x[...].astype(x.dtype) keeps the element type)
                     # x.astype(y.dtype): a fixed-width string / narrower numeric element type of another array truncates values
                     key = (q, "astype", getattr(e.node, "lineno", 0))
                     if key not in seen:
